@@ -23,12 +23,14 @@ type RenderContext struct {
 	parentBlocks       map[string][]Node // Original block content from parent templates
 	macros             map[string]Node
 	parent             *RenderContext
-	engine             *Engine    // Reference to engine for loading templates
-	extending          bool       // Whether this template extends another
-	currentBlock       *BlockNode // Current block being rendered (for parent() function)
-	inParentCall       bool       // Flag to indicate if we're currently rendering a parent() call
-	sandboxed          bool       // Flag indicating if this context is sandboxed
-	lastLoadedTemplate *Template  // The template that created this context (for resolving relative paths)
+	engine             *Engine             // Reference to engine for loading templates
+	extending          bool                // Whether this template extends another
+	currentBlock       *BlockNode          // Current block being rendered (for parent() function)
+	blockChain         map[string][][]Node // Definitions of each block along the extends chain, most derived first
+	blockLevel         int                 // Position in blockChain of the definition being rendered (for parent())
+	inParentCall       bool                // Flag to indicate if we're currently rendering a parent() call
+	sandboxed          bool                // Flag indicating if this context is sandboxed
+	lastLoadedTemplate *Template           // The template that created this context (for resolving relative paths)
 }
 
 // contextMapPool is a pool for the maps used in RenderContext
@@ -110,6 +112,8 @@ func NewRenderContext(env *Environment, context map[string]interface{}, engine *
 	ctx.engine = engine
 	ctx.extending = false
 	ctx.currentBlock = nil
+	ctx.blockChain = nil
+	ctx.blockLevel = 0
 	ctx.parent = nil
 	ctx.inParentCall = false
 	ctx.sandboxed = false
@@ -130,6 +134,8 @@ func (ctx *RenderContext) Release() {
 	ctx.env = nil
 	ctx.engine = nil
 	ctx.currentBlock = nil
+	ctx.blockChain = nil
+	ctx.blockLevel = 0
 
 	// Save the maps so we can return them to their respective pools
 	contextMap := ctx.context
@@ -326,6 +332,8 @@ func (ctx *RenderContext) Clone() *RenderContext {
 	newCtx.engine = ctx.engine
 	newCtx.extending = false
 	newCtx.currentBlock = nil
+	newCtx.blockChain = nil
+	newCtx.blockLevel = 0
 	newCtx.parent = ctx
 	newCtx.inParentCall = false
 
